@@ -231,7 +231,7 @@ fn cut_cases_f64(em: &mut Emitter, alpha_name: &str, alpha: &[f64], maxlab: usiz
                     if k % 4 == 0 {
                         let labels_o: Vec<Option<i32>> = (0..nlab as i32).map(|j| Some(100 + j)).collect();
                         em.case("exact", &tags("opt_i32"), &desc("Option<i32>/ndarray values"), || term(true),
-                            || cut_impl!(Array1::from_vec(vals.clone()), edges.clone(), labels_o.clone(), right, ab, opt_i32_cell));
+                            || { let r = Array1::from_vec(vals.iter().rev().cloned().collect::<Vec<_>>()); cut_impl!(r.slice(tevec::export::ndarray::s![..;-1]), edges.clone(), labels_o.clone(), right, ab, opt_i32_cell) });   // reversed contiguous ndarray view
                     }
                 }
             }
@@ -387,7 +387,7 @@ fn uniq_emit(em: &mut Emitter, xs: &[Option<i64>], scale_i32: &dyn Fn(i64) -> i3
                 uniq_impl!(d, opt_i32_cell)
             }),
         3 => em.case("exact", &uniq_tags("f64", "ndarray", xs), &desc("f64", "ndarray", format!("{:?}", vf)), term_f,
-            || uniq_impl!(Array1::from_vec(vf.clone()), |v: f64| Cell::F(v))),
+            || { let r = Array1::from_vec(vf.iter().rev().cloned().collect::<Vec<f64>>()); uniq_impl!(r.slice(tevec::export::ndarray::s![..;-1]), |v: f64| Cell::F(v)) }),
         _ => {}
     }
 }
